@@ -20,12 +20,19 @@ func main() {
 	seed := fs.Int64("seed", 1, "PRNG seed")
 	tier := fs.String("tier", "quick", "quick|thorough")
 	outPath := fs.String("out", "-", "output file")
+	replay := fs.String("replay", "", "re-execute the lines of this file")
 	fs.Parse(os.Args[2:])
 	out := newOut(*outPath)
 	defer out.close()
+	if *replay != "" {
+		replayFile(*replay, out)
+		return
+	}
 	switch id {
 	case "C01":
 		runC01(*tier, *seed, out)
+	case "C09":
+		runC09(*tier, *seed, out)
 	case "C13":
 		runC13(*tier, *seed, out)
 	case "C17":
